@@ -513,7 +513,10 @@ def compare_run(ctx, case, res, prob, ops2, et, ktol, rho0, U_of_t=None, has_ene
     bad = None
     for t in et:
         k = min(range(nsteps + 1), key=lambda i: abs(prob["times"][i] / total - t))
-        st = res.get_result("state", t).data.numpy()
+        st_t = res.get_result("state", t).data
+        if str(st_t.dtype) != "torch.complex128" and bad is None:
+            bad = (f"stored density matrix has dtype {st_t.dtype}", "lindblad-lost-precision", 0.0, 0.0, t)
+        st = st_t.numpy()
         e_state = float(np.abs(st - ref[k]).max())
         e_occ = float(np.abs(np.array([float(x) for x in res.get_result("occupation", t)]) - occ_dm(ref[k], n)).max())
         e_corr = float(np.abs(np.array(res.get_result("correlation_matrix", t), dtype=float) - corr_dm(ref[k], n)).max())
@@ -566,6 +569,8 @@ def rand_op(rng, kind):
     if kind == "deph":
         c = math.sqrt(rng.uniform(0.05, 2.0) / 2)
         return [[[c, 0.0], z], [z, [-c, 0.0]]]
+    if kind == "cdiag":      # complex diagonal, e.g. diag(1, i), i*sigma_z
+        return [[g(0.7), z], [z, g(0.7)]]
     if kind == "real":
         return [[[rng.gauss(0, 0.6), 0.0] for _ in range(2)] for _ in range(2)]
     return [[g(0.5), g(0.5)], [g(0.5), g(0.5)]]
@@ -591,7 +596,7 @@ def gen_hand_case(rng, thorough, n=None):
             times.append(t)
         prob["times"] = times
     nops = rng.choice([1, 1, 2, 3, 4])
-    ops = [rand_op(rng, rng.choice(["relax", "pump", "deph", "real", "gauss", "gauss"])) for _ in range(nops)]
+    ops = [rand_op(rng, rng.choice(["relax", "pump", "deph", "real", "gauss", "gauss", "cdiag"])) for _ in range(nops)]
     return {"kind": "hand", "prob": _ser_prob(prob), "ops": ops,
             "ktol": rng.choice([1e-10, 1e-10, 1e-8, 1e-6]),
             "rho0_seed": rng.randrange(10 ** 6) if rng.random() < 0.6 else None,
@@ -979,12 +984,113 @@ def ownership_stage(ctx, n_cases):
     ctx.extra["ownership_cases"] = hist
 
 
+# =====================================================================================================
+# precision stream: generic (non-dyadic) complex128 data through the operator-level entry points against an
+# independent numpy complex128 reference at 1e-12 relative to the data scale, plus a dtype oracle.  (The exact dyadic
+# correspondence cannot see a float32/complex64 round trip: small integers survive it.)
+PREC_TOL = 1e-12
+
+
+def gen_precision_case(rng):
+    n = rng.choice([1, 2, 2, 3, 3, 4])
+    g = lambda s=1.0: [rng.gauss(0, s), rng.gauss(0, s)]  # noqa: E731
+    d = 2 ** n
+    U = [[0.0] * n for _ in range(n)]
+    for i in range(n):
+        for j in range(i + 1, n):
+            U[i][j] = U[j][i] = rng.uniform(0.0, 9.0)
+    return {"kind": "precision", "n": n, "omega": [rng.uniform(0.1, 12.0) for _ in range(n)],
+            "delta": [rng.uniform(-9.0, 9.0) for _ in range(n)],
+            "phi": [0.0] * n if rng.random() < 0.3 else [rng.uniform(-3.0, 3.0) for _ in range(n)],
+            "U": U, "ops": [[[g(0.8), g(0.8)], [g(0.8), g(0.8)]] if rng.random() < 0.75 else
+                            [[g(0.8), [0.0, 0.0]], [[0.0, 0.0], g(0.8)]]          # complex diagonal operator
+                            for _ in range(rng.randint(1, 4))],
+            "rho": [[g() for _ in range(d)] for _ in range(d)], "hermitian": rng.random() < 0.7,
+            "dt": rng.uniform(0.001, 0.02), "ktol": 1e-10}
+
+
+def precision_case(ctx, case):
+    import torch
+    import emu_sv.lindblad_operator as lo
+    import emu_sv.time_evolution as te
+    from emu_base import compute_noise_from_lindbladians
+
+    n = case["n"]
+    d = 2 ** n
+    om, de, ph = (np.array(case[k], dtype=float) for k in ("omega", "delta", "phi"))
+    U = np.array(case["U"], dtype=float)
+    ops = _ops_to_np(case["ops"])
+    rho = np.array([[complex(*x) for x in r] for r in case["rho"]], dtype=complex)
+    if case["hermitian"]:
+        rho = rho + rho.conj().T
+    # independent reference (numpy, complex128)
+    H = D.dense_H(om, de, ph, U)
+    Js = [D._embed(L, q, n) for q in range(n) for L in ops]
+    A = sum((J.conj().T @ J for J in Js), np.zeros((d, d), complex))
+    Heff = H - 0.5j * A
+    X = Heff @ rho
+    G_ref = X - X.conj().T + 1j * sum((J @ rho @ J.conj().T for J in Js), np.zeros((d, d), complex))
+    S_ref = -0.5j * sum((L.conj().T @ L for L in ops), np.zeros((2, 2), complex))
+    # the real code
+    t = lambda a, dt_=torch.complex128: torch.tensor(a, dtype=dt_)  # noqa: E731
+    tops = [t(L) for L in ops]
+    trho = t(rho)
+    lind = lo.RydbergLindbladian(omegas=t(om), deltas=t(de), phis=t(ph), pulser_lindblads=tops,
+                                 interaction_matrix=t(U, torch.float64), device="cpu")
+    results = {}
+    results["L @ rho"] = (lind @ trho, G_ref)
+    results["compute_noise_from_lindbladians"] = (compute_noise_from_lindbladians(tops), S_ref)
+    results["h_eff(rho, noise)"] = (lind.h_eff(trho, compute_noise_from_lindbladians(tops)), X)
+    results["h_eff(rho)"] = (lind.h_eff(trho), H @ rho)
+    rec = {}
+
+    def fake_krylov(op, v, *a, **kw):
+        rec["out"] = op(v)
+        return rec["out"]
+
+    saved = te.krylov_exp
+    te.krylov_exp = fake_krylov
+    try:
+        te.EvolveDensityMatrix.apply(case["dt"], t(om), t(de), t(ph), t(U, torch.float64), trho.clone(), case["ktol"], tops)
+    finally:
+        te.krylov_exp = saved
+    if "out" in rec:
+        results["EvolveDensityMatrix.apply op(rho)"] = (rec["out"], -1j * case["dt"] * G_ref)
+    worst = 0.0
+    for name, (got, ref) in results.items():
+        if got.dtype != torch.complex128:
+            ctx.violation(f"{name} returns dtype {got.dtype}, not complex128",
+                          {"case": case, "finding_key": "lindblad-lost-precision"})
+            return None
+        scale = max(1.0, float(np.abs(ref).max()))
+        err = float(np.abs(got.numpy() - ref).max()) / scale
+        worst = max(worst, err)
+        if err > PREC_TOL:
+            ctx.violation(f"{name} differs from the complex128 reference by {err:.3g} relative to the data scale "
+                          f"(bound {PREC_TOL:g}): double precision is lost on the way",
+                          {"case": case, "entry_point": name, "finding_key": "lindblad-lost-precision"})
+            return worst
+    return worst
+
+
+def precision_stage(ctx, n_cases):
+    worst = 0.0
+    for _ in range(n_cases):
+        c = gen_precision_case(ctx.rng)
+        w = precision_case(ctx, c)
+        ctx.count_case({"kind": "precision", "n": c["n"], "ops": len(c["ops"]), "hermitian": c["hermitian"],
+                        "phases": any(c["phi"]), "err": w}, nontrivial=True)
+        worst = max(worst, w or 0.0)
+    ctx.extra["precision_stream_worst_relative_error"] = worst
+
+
 def run(ctx):
     common.coq_make(["Model/SvLindRun.vo"])
     common.standard_proof_stage(ctx, "C16", ["Properties/C16.vo"])
     op_stage(ctx, ctx.n(24, 500))
     run_stage(ctx, ctx.n(30, 600))
     source_shape_stage(ctx)
+    precision_stage(ctx, ctx.n(40, 400))
     ownership_stage(ctx, ctx.n(15, 150))
     e2e_stage(ctx, ctx.n(22, 320), ctx.n(12, 120), ctx.n(8, 60))
     ctx.rule = ("(a) operator cases N=1..3(4): integer/half-integer drives, Gaussian-integer jump operators and "
@@ -1022,6 +1128,8 @@ def run(ctx):
 def replay(ctx, path):
     rp = json.load(open(path))
     case = rp["case"]
+    if case.get("kind") == "precision":
+        print("replay worst relative error:", precision_case(ctx, case))
     if case.get("kind") in ("hand", "pulser"):
         w = run_case(ctx, case)
         print("replay worst deviations:", w)
